@@ -20,7 +20,7 @@ func TestC12(t *testing.T) {
 	defer rec.Flush(t)
 	rec.Class("process-zone/" + getenv("TZ", "(default)"))
 	fail := func(c CellCase, err error) {
-		p := rec.Violation("cell", c, "", err)
+		p := cellViolation(rec, c, err)
 		t.Errorf("C12 violation: %v (replay %s)", err, p)
 	}
 
@@ -93,7 +93,7 @@ func TestC12(t *testing.T) {
 		}{c, os.Getenv("TZ")}, cls)
 		rec.Sample(c)
 		if err := checkCell(c); err != nil {
-			rec.Violation("cell", c, "", err)
+			cellViolation(rec, c, err)
 			rt.Fatalf("C12 violation (TZ=%s): %v", os.Getenv("TZ"), err)
 		}
 	})
